@@ -166,7 +166,7 @@ PROPS['C28'] = dict(
          'is NOT extracted): exactly one number is written per line, exactly one counter advances by one, the number written is the successor of the previous line of the same counter, '
          'and a logger that does not separate directions numbers all lines from one counter. The output step of process_logline (the `if (_flags & buffer) ... else ...` that ends it, selected '
          'from the AST the same way; strings are identities): a buffering logger appends the line to its buffer exactly once and writes nothing, a direct logger inserts the line into the '
-         'stream exactly once, under the logger mutex, which is released afterwards. NOT decided: conjuncts about producer interleavings (exactly once / per-producer order '
+         'stream exactly once, under the logger mutex, which is released afterwards, and the write reaches the file before the step ends (endl, or an explicit flush when the logger writes no line feeds); flush() ends every line it writes. NOT decided: conjuncts about producer interleavings (exactly once / per-producer order '
          'under 1-8 concurrent producers: the queue itself, C30), the formatting part of process_logline (the loop over positions), that the buffer append itself is not under the mutex flush() holds (a data race if flush() is called from another thread -- schedules), that stop() joins the thread.',
     note='producer interleavings are outside sequential contracts; the consumer is verified against an environment that may act between any two of its steps; queue, LogElement constructor, thread id are ASSUMED models',
     trusted_base=COMMON_TRUST,
